@@ -7,7 +7,7 @@ PROPS["C14"] = dict(
     coq_targets=["Nft/Check.vo"],
     check_module="Nft.Check",
     check_fn="check_case",
-    streams=[dict(name="main", quick=320, thorough=8000)],
+    streams=[dict(name="main", quick=320, thorough=8000), dict(name="abci", quick=48, thorough=1200)],
     coq_shard=20,
     coq_case_timeout=3600,
     rule="histories of 12-35 (thorough: 12-75) steps = issue-class / mint / edit / transfer (plain, with metadata changes, "
@@ -16,7 +16,9 @@ PROPS["C14"] = dict(
          "mint-restricted / update-restricted flags and 5 token ids per class (so ids are re-minted while in use and after a "
          "burn); ~8% malformed (bad / reserved class ids, bad token ids, bad addresses, over-long URI, data that is not JSON); "
          "non-trivial = on some object (a token; a class for hand-over; a mint-restricted class for minting) a non-entitled "
-         "actor attempted an operation and the entitled one succeeded with one; distinct = by hash of the history",
+         "actor attempted an operation and the entitled one succeeded with one; distinct = by hash of the history; stream 'abci' executes histories of the same generator through the real ABCI surface "
+         "(InitChain, FinalizeBlock with one SIGNED transaction per message through the ante handlers, Commit; observations on the "
+         "committed state; a message whose sender is not an address cannot be signed and counts as rejected)",
     codes={1: "nft.owner-not-unique", 2: "nft.supply-tokens-balances-differ", 3: "nft.owner-authority",
            4: "nft.mint-restriction-or-id-reuse", 5: "nft.update-restricted-metadata-changed", 6: "nft.class-authority",
            7: "nft.failed-step-changed-state"},
@@ -29,5 +31,5 @@ PROPS["C14"] = dict(
              7: "a failed message or a block boundary changed classes, tokens, supplies or the owners' lists"},
     trusted_base=["the SDK's x/nft keeper (class / NFT / owner / owner-index / supply stores) is modelled in Nft/Model.v, not verified; "
                   "its agreement with the model is observed after every step (Collection, Supply, NFTsOfOwner, Denoms queries and the raw owner record)"],
-    assumptions=["fewer than 2^64 tokens are ever minted into one class (the supply counter's increment is modelled without wrap-around)"],
+    assumptions=["histories of fewer than 2^64 steps (hypothesis of supply_counter_no_wrap and model_passes_check: the x/nft supply counter is a uint64, modelled with its wrap-around)"],
 )
